@@ -1082,5 +1082,24 @@ def shrink(case):
                 yield case[:i] + [None] + case[i + 1:]
 
 
+# ---------------------------------------------------------------- the source-level tie (tools/py2coq_c12.py)
+
+
+def extra_obligations(tier):
+    """The header accessors of MoreInfoFromHeaderMixin (baize/requests.py: accepted_types, accepts, content_length, date,
+    referrer) are translated from the source in BAIZE_REPO as it is now: statements = lets, every stdlib parser (int(),
+    parsedate_to_datetime, URL(url=...), .port) = a match on the answer of an oracle argument, `except (A, B)` =
+    `catches [A; B] e` with the class list read from the source, MediaType / .match = function arguments instantiated with
+    the model's media_type / media_match.  coqc re-checks C12/Translated.v against the fresh text: each translated accessor
+    = the model's function for every header lookup and EVERY oracle answer; no translated accessor yields Crash for
+    oracle answers inside the declared failure classes.  Plus pystr_check (the str functions the translation uses agree
+    with the interpreter).  A source the translator refuses is not applicable (None), never an alarm."""
+    import importlib.util
+    spec = importlib.util.spec_from_file_location("py2coq_c12", os.path.join(core.VERIF, "tools", "py2coq_c12.py"))
+    py2coq_c12 = importlib.util.module_from_spec(spec)
+    spec.loader.exec_module(py2coq_c12)
+    return py2coq_c12.obligations(core.REPO, core.VERIF)
+
+
 if __name__ == "__main__":
     core.main(sys.modules[__name__])
